@@ -9,6 +9,7 @@ concurrently, each with its own content evaluation result in context-local stora
 """
 
 import asyncio
+import itertools
 from contextvars import ContextVar
 
 from hypothesis import strategies as st
@@ -19,8 +20,8 @@ from vlib.core import Stage, fail
 ID = "C12"
 MANIFEST = {
     "category": "exploration",
-    "text": "Schedule exploration by generated-input search: (single) AHB expressions with several modal-mark parts, repeated keys, hints, format constraints and packages occurring several times x content evaluation results x a schedule (list of yield counts consumed call by call by the harness's async RcEvaluator / FcEvaluator methods, HintsProvider and PackageResolver; every third rc method is a plain function). The results of evaluate_ahb_expression_tree (incl. package expansion), requirement_constraint_evaluation and format_constraint_evaluation under the schedule must equal the results under the all-zero schedule and the reference evaluator's selection/outcome; the expanded tree must equal the zero-schedule tree. (concurrent) 2-5 jobs - AHB evaluations and is_valid_expression calls - run as concurrent tasks with yielding ContentEvaluationResult-based evaluators - or a method-based RcEvaluator whose evaluate_<key> coroutines derive their answer from the evaluatable data they are handed - that read the job's own result from a ContextVar; every job must equal its run alone.",
-    "note": "Trusted: the schedule harness (vlib/sched.py), the reference evaluator, attrs equality of result objects. Delays enumerate completion orders among already started awaitables of one single-threaded event loop; threads are out of scope.",
+    "text": "Schedule exploration by generated-input search: (single) AHB expressions with several modal-mark parts, repeated keys, hints, format constraints and packages occurring several times x content evaluation results x a schedule (list of yield counts consumed call by call by the harness's async RcEvaluator / FcEvaluator methods, HintsProvider and PackageResolver; every third rc method is a plain function). The results of evaluate_ahb_expression_tree (incl. package expansion), requirement_constraint_evaluation and format_constraint_evaluation under the schedule must equal the results under the all-zero schedule and the reference evaluator's selection/outcome; the expanded tree must equal the zero-schedule tree. (concurrent) 2-5 jobs - AHB evaluations and is_valid_expression calls - run as concurrent tasks with yielding ContentEvaluationResult-based evaluators - or a method-based RcEvaluator whose evaluate_<key> coroutines derive their answer from the evaluatable data they are handed - that read the job's own result from a ContextVar; every job must equal its run alone. For is_valid_expression jobs on expressions with 1-3 requirement constraints the harness records which evaluatable data the evaluations of the call were served: exactly the 3^m possible states, each evaluation its own.",
+    "note": "Trusted: the schedule harness (vlib/sched.py), the reference evaluator, attrs equality of result objects. Delays enumerate completion orders among already started awaitables of one single-threaded event loop; threads are out of scope. Process configuration by shard (vlib/sut.py; recorded in replay files): plain / parse caches preheated beyond their size / warnings attributed to ahbicht raised as errors / logging fully enabled with every record rendered.",
     "technique": "property-based schedule exploration (harness-controlled yield counts) with differential (zero schedule) and reference oracles",
 }
 LEVEL = "exploration"
@@ -171,7 +172,33 @@ def _configure_concurrent(method_based_rc=False):
     from ahbicht.models.content_evaluation_result import ContentEvaluationResultSchema
 
     schema = ContentEvaluationResultSchema()
-    sut.configure(_yielding_cer_based_providers(method_based_rc), lambda: sut.evaluatable_data(schema.dump(_CER.get())))
+
+    def data():
+        body = schema.dump(_CER.get())
+        _SEEN.setdefault(_JOB.get(), set()).add(tuple(sorted(body["requirement_constraints"].items())))
+        return sut.evaluatable_data(body)
+
+    sut.configure(_yielding_cer_based_providers(method_based_rc), data)
+
+
+_SEEN = {}  # job index -> the requirement constraint assignments of the evaluatable data served inside that job
+
+
+def _all_possible_results_seen(index, job, how):
+    """
+    is_valid_expression runs one evaluation per possible content evaluation result, concurrently, and each of them
+    must see its own: over the evaluations of one call, the data served are exactly the 3^m assignments
+    """
+    ast = job["parts"][0][1]
+    keys = ref.keys_of(ast, "rc")
+    if not 1 <= len(keys) <= 3 or ref.keys_of(ast, "pkg"):
+        return
+    seen = {tuple((k, v) for k, v in items if k in keys) for items in _SEEN.get(index, set())}
+    expected = {tuple(sorted(zip(keys, combo))) for combo in itertools.product(["FULFILLED", "UNFULFILLED", "UNKNOWN"], repeat=len(keys))}
+    if {tuple(sorted(x)) for x in seen} != expected:
+        fail("validity-own-data", f"is_valid_expression({job['s']!r}) {how}: its {len(expected)} evaluations (one per possible content "
+             f"evaluation result) were served the requirement constraint states {sorted(seen)} - each must see its own, "
+             f"i.e. all of {sorted(expected)}")  # fmt: skip
 
 
 async def _job(index, job):
@@ -198,6 +225,7 @@ def check_concurrent(case):
         async def one(index=index, job=job):
             return await asyncio.create_task(_job(index, job))
 
+        _SEEN.clear()
         res = sut.call(one)
         if not res.ok and not res.is_a(NotImplementedError):
             fail("alone-raises", f"job {index} ({job['kind']} of {job['s']!r}) raised on its own: {res!r}")
@@ -216,6 +244,8 @@ def check_concurrent(case):
                 fail("reference", f"job {index} ({job['s']!r}, rc={job['cer']['rc']}) run on its own after {index} other jobs on the "
                      f"same evaluators: fulfilled = {res.value.requirement_constraint_evaluation_result.requirement_constraints_fulfilled!r}, "
                      f"reference says {expected_fulfilled!r}")  # fmt: skip
+        if job["kind"] == "validity" and res.ok and res.value[0] is True:
+            _all_possible_results_seen(index, job, "run on its own")
         if job["kind"] == "validity" and res.ok:
             verdict = "invalid" if any(ref.validity(p[1]) == "invalid" for p in job["parts"] if p[1] is not None) else "valid"
             if (res.value[0] is True) != (verdict == "valid"):
@@ -228,6 +258,7 @@ def check_concurrent(case):
         tasks = [asyncio.create_task(sut.acall(_job(index, job))) for index, job in enumerate(jobs)]
         return await asyncio.gather(*tasks)
 
+    _SEEN.clear()
     res = sut.call(together)
     if not res.ok:
         fail("concurrent-raises", f"running {len(jobs)} jobs concurrently raised {res!r}")
@@ -240,6 +271,8 @@ def check_concurrent(case):
             if single.value[0] is not concurrent.value[0] or (concurrent.value[0] is False and not concurrent.value[1]):
                 fail("job-differs", f"job {index} (validity of {jobs[index]['s']!r}): {concurrent.value!r} when run "
                      f"concurrently with {len(jobs) - 1} others, {single.value!r} alone")  # fmt: skip
+            if concurrent.value[0] is True:
+                _all_possible_results_seen(index, jobs[index], f"run concurrently with {len(jobs) - 1} other jobs")
         elif single.ok and single.value != concurrent.value:
             fail("job-differs", f"job {index} ({jobs[index]['kind']} of {jobs[index]['s']!r}) under rc={jobs[index]['cer']['rc']}: "
                  f"{concurrent.value!r} when run concurrently with {len(jobs) - 1} others, {single.value!r} alone")  # fmt: skip
